@@ -146,7 +146,38 @@ func (c07) Run(c *mon.Ctx, i int) {
 		}
 		lvl := allLevels[r.Intn(len(allLevels))]
 		var b bytes.Buffer
-		if kind == "gzip" {
+		if kind == "gzip" && r.Chance(1, 3) {
+			// hand-built member: no Go writer ever sets FHCRC (or FTEXT, XFL),
+			// so the header-CRC path is reached only this way
+			flg := byte(2) | byte(r.Intn(2)) // FHCRC, maybe FTEXT
+			var hdr []byte
+			var extra, name, comment []byte
+			if r.Bool() {
+				flg |= 4
+				extra = r.Bytes(r.Range(0, 20))
+			}
+			if r.Bool() {
+				flg |= 8
+				name = []byte("name\x00")
+			}
+			if r.Bool() {
+				flg |= 16
+				comment = []byte("a comment\x00")
+			}
+			hdr = append(hdr, 0x1f, 0x8b, 8, flg, byte(r.Intn(256)), 0, 0, 0, byte(r.Pick(0, 2, 4)), byte(r.Intn(256)))
+			if flg&4 != 0 {
+				hdr = append(hdr, byte(len(extra)), byte(len(extra)>>8))
+				hdr = append(hdr, extra...)
+			}
+			hdr = append(hdr, name...)
+			hdr = append(hdr, comment...)
+			c16 := uint16(crc32.ChecksumIEEE(hdr))
+			hdr = append(hdr, byte(c16), byte(c16>>8))
+			b.Write(hdr)
+			b.Write(encodeStd(d.B, lvl, nil))
+			b.Write(gzipTrailer(d.B))
+			c.Count("hand-built-members-with-header-crc", 1)
+		} else if kind == "gzip" {
 			w, _ := api.NewGzipWriterLevel(&b, lvl)
 			if r.Chance(1, 3) {
 				w.SetHeader(impl.Header{Name: "n", Comment: "c", Extra: []byte{1, 2, 3}})
